@@ -194,9 +194,28 @@ def box(*a, **k):
         return Geom(z3.FreshConst(GeomSort, 'box'))
 
 
+@model
+def shape(obj):
+    """shapely.geometry.shape: either a geometry determined by the JSON value, or an exception."""
+    used('SH-SHAPE')
+    c = core.ctx()
+    c.event('shape', obj)
+    from .stdlib import choice
+    if choice('shape_ok'):
+        g = Geom(z3.FreshConst(GeomSort, 'shape'))
+        g_src = obj
+        reg = getattr(c, '_shape_results', None)
+        if reg is None:
+            reg = c._shape_results = []
+        reg.append((obj, g))
+        return g
+    raise PyRaise(ExcObj(ValueError, ('not a geometry',)))
+
+
 class _GeometryMod:
     _pyvc_model_class = True
     box = staticmethod(box)
+    shape = staticmethod(shape)
     Polygon = type('Polygon', (), {})
     MultiPolygon = type('MultiPolygon', (), {})
     Point = type('Point', (), {})
